@@ -311,6 +311,38 @@ func judgePreload(c *CheckCtx, rn Runner, pc *preloadCase) *Violation {
 		}
 	}
 	if sameRecs(want, got) {
+		// editor queries: hovering a row of the target must answer what hovering
+		// the same row of the concatenation answers
+		if len(pc.Mode) == 0 {
+			tl := strings.Split(strings.TrimRight(pc.Parts[n], "\n"), "\n")
+			hovered := 0
+			for i, line := range tl {
+				if hovered >= 2 || !strings.ContainsAny(line, ".(") || strings.HasPrefix(strings.TrimSpace(line), "def ") {
+					continue
+				}
+				hovered++
+				row := i + 1
+				h1, okA := relRun(c, rn, &Exec{Files: map[string]string{targetFile: whole}, Argv: []string{targetFile, "--hover", fmt.Sprintf("--row=%d", row+offset)}})
+				h2, okB := relRun(c, rn, &Exec{Files: files, Argv: []string{targetFile, "--hover", fmt.Sprintf("--row=%d", row)}, Preload: preload})
+				if !okA || !okB {
+					continue
+				}
+				c.Event("hover_rows_compared", 1)
+				first := func(out string) string {
+					for _, l := range strings.Split(out, "\n") {
+						if strings.HasPrefix(l, "%") {
+							return l
+						}
+					}
+					return ""
+				}
+				if first(h1) != first(h2) {
+					return &Violation{Sig: "preload:--hover:" + msgTemplate(first(h1)) + "=>" + msgTemplate(first(h2)), Kind: "preload", Case: mustJSON(pc),
+						What:     fmt.Sprintf("--hover --row=%d of the target with %d preloaded file(s) answers %q, the same row of the concatenation (--row=%d) answers %q", row, n, first(h2), row+offset, first(h1)),
+						Expected: clip(h1, 1500), Observed: clip(h2, 1500)}
+				}
+			}
+		}
 		return nil
 	}
 	return &Violation{Sig: "preload:" + strings.Join(pc.Mode, "") + ":" + diffTemplate(want, got), Kind: "preload", Case: mustJSON(pc),
@@ -424,7 +456,7 @@ func init() {
 			return judgePreload(c, s.BlackBox(), &pc)
 		},
 		Run: func(c *CheckCtx) {
-			c.rule = "programs (corpus and generated) split at top-level statement boundaries into 1-3 preload files plus a target; `.ti-loader.json` lists the preload files in order; oracle: out(target | preloads) == out(concatenation) restricted to the target's rows and rebased, and no output line names a preloaded file; modes plain and -i. distinct_nontrivial = distinct (split, mode) whose target rows carry output"
+			c.rule = "programs (corpus and generated) split at top-level statement boundaries into 1-3 preload files plus a target; `.ti-loader.json` lists the preload files in order; oracle: out(target | preloads) == out(concatenation) restricted to the target's rows and rebased, and no output line names a preloaded file; modes plain and -i; in plain mode up to two call rows of the target are also hovered (--hover --row) in both arrangements and must name the same method. distinct_nontrivial = distinct (split, mode) whose target rows carry output"
 			c.assumptions = []string{"splits in which a run crashes or hangs are skipped (C01/C02)"}
 			c.bbEvery = 5 // preloading lives in main(): one case in five runs in a real process
 			r := c.RNG.Sub(18)
